@@ -216,7 +216,10 @@ Record Inv0 (s : st) : Prop := {
 Definition Disc (s : st) : Prop :=
   disconnected s = true -> forall rid h, In (rid, h) (table s) -> exists o, In (h, o) (evq s).
 
-Definition Inv (s : st) : Prop := Inv0 s /\ Disc s.
+(* the eventual queue only ever holds failures queued by finish() *)
+Definition Quiet (s : st) : Prop := disconnected s = false -> evq s = [].
+
+Definition Inv (s : st) : Prop := Inv0 s /\ Disc s /\ Quiet s.
 
 Lemma get_lt s h c : get s h = Some c -> (h < List.length (calls s))%nat.
 Proof. unfold get. intros H. apply nth_error_Some. congruence. Qed.
@@ -492,7 +495,7 @@ Proof.
   - rewrite complete_step_closed. destruct (frame_complete s h) as [E1 [E2 [_ [_ Sub]]]]. eapply disc_shrink; eauto.
   - rewrite fail_step_closed. destruct (frame_fail s h o) as [E1 [E2 [_ [_ Sub]]]]. eapply disc_shrink; eauto.
   - rewrite finish_step_closed. unfold finish_closed. destruct (disconnected s) eqn:Hd; auto.
-    intros _ rid h He. cbn in *. exists o. apply in_app_iff. right.
+    intros _ rid h He. cbn in *. exists (reason_outcome r). apply in_app_iff. right.
     apply in_map_iff. exists (rid, h). auto.
   - destruct (evq s) as [|[h o] q] eqn:Q; auto. rewrite fail_step_closed.
     intros Hd rid h' He.
@@ -510,11 +513,30 @@ Proof.
     rewrite Hh in He. cbn in He. apply tbl_del_in in He as [_ N]. cbn in N. congruence.
 Qed.
 
+Lemma quiet_step s x : Quiet s -> Quiet (step s x).
+Proof.
+  intros Q. destruct x; cbn [step].
+  - destruct (frame_call s k) as [E1 [E2 _]]. intros Hd. rewrite E2. apply Q. congruence.
+  - destruct (tbl_find rid (table s)); auto. rewrite complete_step_closed.
+    destruct (frame_complete s n) as [E1 [E2 _]]. intros Hd. rewrite E2. apply Q. congruence.
+  - destruct (tbl_find rid (table s)); auto. rewrite fail_step_closed.
+    destruct (frame_fail s n ORemoteError) as [E1 [E2 _]]. intros Hd. rewrite E2. apply Q. congruence.
+  - destruct (tbl_find rid (table s)); auto. rewrite fail_step_closed.
+    destruct (frame_fail s n OViolation) as [E1 [E2 _]]. intros Hd. rewrite E2. apply Q. congruence.
+  - rewrite complete_step_closed. destruct (frame_complete s h) as [E1 [E2 _]]. intros Hd. rewrite E2. apply Q. congruence.
+  - rewrite fail_step_closed. destruct (frame_fail s h o) as [E1 [E2 _]]. intros Hd. rewrite E2. apply Q. congruence.
+  - rewrite finish_step_closed. unfold finish_closed. destruct (disconnected s) eqn:Hd; auto.
+    intros X. cbn in X. discriminate.
+  - destruct (evq s) as [|[h o] q] eqn:E; auto. rewrite fail_step_closed.
+    destruct (frame_fail (set_evq s q) h o) as [E1 [E2 _]]. intros Hd. rewrite E1 in Hd. cbn in Hd.
+    specialize (Q Hd). congruence.
+Qed.
+
 Lemma inv_init : Inv init.
-Proof. split; [apply inv0_init | intros H; discriminate]. Qed.
+Proof. split; [apply inv0_init | split; [intros H; discriminate | intros _; reflexivity]]. Qed.
 
 Lemma inv_step s x : Inv s -> Inv (step s x).
-Proof. intros [I D]. split; [apply inv0_step | apply disc_step]; auto. Qed.
+Proof. intros [I [D Q]]. split; [apply inv0_step | split; [apply disc_step | apply quiet_step]]; auto. Qed.
 
 Lemma inv_run_from ops : forall s, Inv s -> Inv (run_from s ops).
 Proof. induction ops as [|x ops IH]; intros s I; cbn; auto. apply IH. apply inv_step. exact I. Qed.
@@ -561,7 +583,7 @@ Qed.
 Lemma drained_state s : Inv s -> disconnected s = true -> evq s = [] ->
   table s = [] /\ forall h c, get s h = Some c -> c_twoway c = true -> List.length (c_fires c) = 1%nat.
 Proof.
-  intros [I D] Hd Q.
+  intros [I [D _]] Hd Q.
   assert (Tn : table s = []).
   { destruct (table s) as [|[r h] t] eqn:E; auto. destruct (D Hd r h) as [o Ho]; [rewrite E; left; reflexivity|].
     rewrite Q in Ho. contradiction. }
@@ -594,19 +616,19 @@ Proof.
   repeat split; auto. destruct (evq s); cbn; [destruct n|]; reflexivity.
 Qed.
 
-Lemma finish_disconnects s o : disconnected (step s (Finish o)) = true.
+Lemma finish_disconnects s r : disconnected (step s (Finish r)) = true.
 Proof. cbn [step]. rewrite finish_step_closed. unfold finish_closed. destruct (disconnected s) eqn:E; auto. Qed.
 
 (* ... and that state is always reached: losing the connection and letting the queued eventual-sends run
    (as many turns as there are queued entries) drains everything *)
-Theorem loss_then_drain : forall ops o,
-  let s1 := run (ops ++ [Finish o]) in
+Theorem loss_then_drain : forall ops r,
+  let s1 := run (ops ++ [Finish r]) in
   let s2 := run_from s1 (repeat Turn (List.length (evq s1))) in
   disconnected s2 = true /\ evq s2 = [] /\ table s2 = [] /\
   List.length (calls s2) = List.length (calls (run ops)) /\
   forall h c, get s2 h = Some c -> c_twoway c = true -> List.length (c_fires c) = 1%nat.
 Proof.
-  intros ops o s1 s2.
+  intros ops r s1 s2.
   assert (I1 : Inv s1) by apply inv_run.
   assert (I2 : Inv s2) by (apply inv_run_from; exact I1).
   destruct (turns_drain (List.length (evq s1)) s1) as [E1 [E2 E3]]. fold s2 in E1, E2, E3.
@@ -803,10 +825,107 @@ Proof.
   exfalso. apply N. apply tbl_find_some in F. apply in_map_iff. eexists; split; [|exact F]. reflexivity.
 Qed.
 
+(* ---------- 7. the outcome given by a lost connection *)
+
+(* the code's test (translated: lost_test_of_source, lost_connection_errors_listed) implements the documented mapping
+   "all connection-lost errors become DeadReferenceError": listed classes AND their subclasses *)
+Theorem lost_reason_is_DeadReferenceError : forall r, is_lost r = true -> reason_outcome r = ODeadRef.
+Proof. intros [c|c|]; cbn; try discriminate; intros _; destruct c; reflexivity. Qed.
+
+Theorem unrelated_reason_passes_through : reason_outcome RUnrelated = OOther.
+Proof. reflexivity. Qed.
+
+Lemma fail_closed_get s h' o h c : Inv0 s -> get s h = Some c ->
+  get (fail_closed s h' o) h = Some c \/
+  (h' = h /\ c_fires c = [] /\ exists c', get (fail_closed s h' o) h = Some c' /\ c_fires c' = [o]).
+Proof.
+  intros I G. unfold fail_closed. destruct (get s h') as [d|] eqn:G'; auto.
+  destruct (c_active d) eqn:A; auto.
+  assert (F : forall t, get (fire (set_table s t) h' o) h = Some c \/
+     (h' = h /\ c_fires c = [] /\ exists c', get (fire (set_table s t) h' o) h = Some c' /\ c_fires c' = [o])).
+  { intros t. rewrite get_fire, get_set_table. destruct (Nat.eqb_spec h' h) as [->|N]; auto.
+    right. split; auto. rewrite G in G'. inversion G'; subst d.
+    destruct (I_calls _ I _ _ G) as [_ [E _]]. specialize (E A). split; auto.
+    rewrite G. cbn. eexists. split; [reflexivity|]. cbn. rewrite E. reflexivity. }
+  destruct (c_tracked d); [destruct (tbl_has (c_rid d) (table s))|]; auto.
+  replace s with (set_table s (table s)) at 1 3 by (destruct s; reflexivity). apply F.
+Qed.
+
+Definition outP (h : nat) (o : outcome) (s : st) : Prop :=
+  (forall o', In (h, o') (evq s) -> o' = o) /\
+  exists c, get s h = Some c /\ (c_fires c = [] \/ c_fires c = [o]).
+
+Lemma outP_turn h o s : Inv0 s -> outP h o s -> outP h o (step s Turn).
+Proof.
+  intros I [Q [c [G F]]]. cbn [step]. destruct (evq s) as [|[h' o'] q] eqn:E; [split; [rewrite E|]; eauto|].
+  rewrite fail_step_closed.
+  destruct (frame_fail (set_evq s q) h' o') as [_ [E2 _]].
+  split.
+  - intros o'' H. rewrite E2 in H. cbn in H. apply Q. right. exact H.
+  - destruct (fail_closed_get (set_evq s q) h' o' h c (inv0_set_evq _ _ I) G) as [X|[-> [F0 [c' [X Y]]]]].
+    + exists c. auto.
+    + exists c'. split; auto. right. rewrite Y. f_equal. apply Q. left. reflexivity.
+Qed.
+
+Lemma outP_turns h o n : forall s, Inv s -> outP h o s -> outP h o (run_from s (repeat Turn n)).
+Proof.
+  induction n as [|n IH]; intros s I P; [exact P|].
+  cbn [repeat run_from fold_left]. apply (IH (step s Turn)); [apply inv_step; auto | apply outP_turn; [apply I | auto]].
+Qed.
+
+(* every callRemote that is pending when the connection ends (connected until then) fires with exactly the outcome the
+   reason maps to -- and nothing else; with lost_reason_is_DeadReferenceError: DeadReferenceError for every lost-connection
+   reason, subclasses included *)
+Theorem loss_outcome : forall ops r h c,
+  disconnected (run ops) = false -> get (run ops) h = Some c -> c_twoway c = true -> c_fires c = [] ->
+  let s1 := run (ops ++ [Finish r]) in
+  let s2 := run_from s1 (repeat Turn (List.length (evq s1))) in
+  exists c', get s2 h = Some c' /\ c_fires c' = [reason_outcome r].
+Proof.
+  intros ops r h c Hd G Tw F s1 s2.
+  destruct (inv_run ops) as [I [_ Qt]].
+  assert (S1 : s1 = finish_closed (run ops) (reason_outcome r)).
+  { unfold s1, run. rewrite fold_left_app. cbn [fold_left step]. apply finish_step_closed. }
+  assert (P1 : outP h (reason_outcome r) s1).
+  { rewrite S1. unfold finish_closed. rewrite Hd. split.
+    - intros o' H. cbn in H. rewrite (Qt Hd) in H. cbn in H. apply in_map_iff in H as [e [E _]]. congruence.
+    - exists c. split; auto. }
+  assert (I1 : Inv s1) by apply inv_run.
+  pose proof (outP_turns h (reason_outcome r) (List.length (evq s1)) s1 I1 P1) as [_ [c' [G' F']]]. fold s2 in G'.
+  exists c'. split; auto.
+  destruct (loss_then_drain ops r) as [_ [_ [_ [_ L]]]]. fold s1 s2 in L.
+  assert (G1 : get s1 h = Some c) by (rewrite S1; unfold finish_closed; rewrite Hd; exact G).
+  destruct (run_from_extends (repeat Turn (List.length (evq s1))) s1 h c G1) as [c2 [G2 [_ [T2 _]]]]. fold s2 in G2.
+  rewrite G' in G2. inversion G2; subst c2.
+  specialize (L h c' G' (eq_trans T2 Tw)).
+  destruct F' as [X|X]; auto. rewrite X in L. discriminate.
+Qed.
+
+Corollary lost_connection_gives_DeadReferenceError : forall ops r h c,
+  is_lost r = true ->
+  disconnected (run ops) = false -> get (run ops) h = Some c -> c_twoway c = true -> c_fires c = [] ->
+  let s1 := run (ops ++ [Finish r]) in
+  let s2 := run_from s1 (repeat Turn (List.length (evq s1))) in
+  exists c', get s2 h = Some c' /\ c_fires c' = [ODeadRef].
+Proof.
+  intros ops r h c L Hd G Tw F. rewrite <- (lost_reason_is_DeadReferenceError r L).
+  apply (loss_outcome ops r h c); auto.
+Qed.
+
+Example ex_lost_subclass :
+  let ops := [Call KTwoWay; Call KTwoWay; Answer 1; Finish (RSubclass SSLErrorC); Turn] in
+  map (fun c => map ocode (c_fires c)) (calls (run ops)) = [[1]; [4]].
+Proof. vm_compute. reflexivity. Qed.
+
+Example ex_unrelated_reason :
+  let ops := [Call KTwoWay; Finish RUnrelated; Turn] in
+  map (fun c => map ocode (c_fires c)) (calls (run ops)) = [[7]].
+Proof. vm_compute. reflexivity. Qed.
+
 (* ---------- non-vacuity *)
 Example ex_trace :
   let ops := [Call KTwoWay; Call KTwoWay; Call KOneWay; Call KTwoWay; Call KLocalReject;
-              Answer 1; Fail 3 OSendFail; Finish ODeadRef; Complete 0; Call KTwoWay; Turn; Turn] in
+              Answer 1; Fail 3 OSendFail; Finish (RListed ConnectionDoneC); Complete 0; Call KTwoWay; Turn; Turn] in
   snapshot (run ops) =
   ([], [[1]; [4]; []; [5]; [6]; [4]], (true, [], 1)).
 Proof. vm_compute. reflexivity. Qed.
@@ -817,7 +936,7 @@ Example ex_keyerror :
 Proof. vm_compute. split; reflexivity. Qed.
 
 Example ex_pending_after_loss_before_turn :
-  let ops := [Call KTwoWay; Call KTwoWay; Answer 2; Finish ODeadRef] in
+  let ops := [Call KTwoWay; Call KTwoWay; Answer 2; Finish (RSubclass ConnectionLostC)] in
   disconnected (run ops) = true /\ map fst (table (run ops)) = [1] /\ evq (run ops) = [(0%nat, ODeadRef)].
 Proof. vm_compute. repeat split; reflexivity. Qed.
 
